@@ -148,6 +148,13 @@ def simp_add(t):
     return t
 
 
+def _dyn_type_test(c):
+    """a call that asks for the dynamic type of an `Any`: `is::<T>()`, `downcast_ref::<T>()` / `downcast_mut` (then `.is_some()`), `type_id()`"""
+    n = c.name or ''
+    last = n.split('::')[-1]
+    return ('TypeId' in n) or (('Any' in n or 'any::' in n) and last in ('is', 'downcast_ref', 'downcast_mut', 'type_id'))
+
+
 def r2_include_order(ctx):
     ctx.set_rule('C17.R2')
     P = ctx.P
@@ -289,7 +296,7 @@ def r3_typed_access(ctx):
                 ctx.check(not writes, 'mismatch-leaves-slot', 'a failed typed access leaves the property untouched', f.where_path(path))
     g = ctx.anchor(PR + 'RawProp::is')
     if g:
-        ok = any(s.name.endswith('::is') and 'Any' in s.name for s in g.calls()) or any('TypeId' in s.name or s.name.endswith('Any::is') or s.name.endswith('::is') for h in [g] + P.closures_of(g) for s in h.calls())
+        ok = any(s.name.endswith('::is') and 'Any' in s.name for s in g.calls()) or any(_dyn_type_test(s) or s.name.endswith('::is') for h in [g] + P.closures_of(g) for s in h.calls())
         ctx.check(ok, 'is-uses-any', 'RawProp::is compares dynamic types', g.where())
     s = ctx.anchor(PR + 'store::Props::set')
     if s:
@@ -308,7 +315,7 @@ def r3_typed_access(ctx):
         clo = P.closures_of(ps[0])
         # the assertion's condition tests the dynamic type of the stored value (is_none_or(.. is::<T>()) or an equivalent match)
         ok = any(any(is_panic_site(c) for c in h.calls()) and (any(c.name.endswith('::is_none_or') for c in h.calls()) or
-                                                                any(c.name.endswith('::is') and ('Any' in c.name or 'any' in c.name) for h2 in [h] + P.closures_of(h) for c in h2.calls()))
+                                                                any(_dyn_type_test(c) for h2 in [h] + P.closures_of(h) for c in h2.calls()))
                  for h in clo)
         ctx.check(ok, 'prop-set-type-assert', 'Prop::set refuses (panics) to change the type of a property', ps[0].where())
 
